@@ -31,7 +31,10 @@ node registered and acknowledged for a newer container of the same instance;
 (4) /scheduled/<inst> is deleted by a host only while it owns the placement
 ((1),(2),(4): oracles/presencecheck.py over the ZooKeeper op log); (5) at
 quiescence after faults stop no request of a live service is unacknowledged
-unless a node it needs is owned by another session.
+unless a node it needs is owned by another session; (6) when a registration
+completes (create request acknowledged, EndpointPresence.register_* returned)
+every node it stands for exists and is owned by the registering session
+(a session resumed after a kill is the same session).
 """
 
 import configparser
@@ -69,7 +72,7 @@ ALL_HOSTS = ('hosta', 'hostb', 'hostc')
 TERMINAL = ('finished', 'aborted', 'killed')
 SETTLE_ROUNDS = 8
 NESTABLE = ('svc', 'deliver', 'expire', 'delete', 'create', 'kill', 'restart',
-            'place', 'ep_exit')
+            'place', 'ep_exit', 'ep_crash', 'ep_reap')
 
 
 def _sys_exit(code):
@@ -234,7 +237,8 @@ class Host:
         self.sid = None           # service session (may outlive a process)
         self.starts = 0
         self.pub = None
-        self.rts = []             # [(sid, Cont)] runtime sessions alive
+        self.rts = []             # [(sid, Cont)] runtime processes alive
+        self.rt_zombies = []      # sessions of crashed runtime processes
 
 
 class World:
@@ -277,6 +281,9 @@ class World:
             'rt_waited': 0, 'rt_gave_up': 0, 'settle_rounds': 0,
             'liveness_checked_waiters': 0, 'watch_events_delivered': 0,
             'older_registration_superseded': 0,
+            'registrations_checked_own_session': 0,
+            'rt_crashed_session_lingers': 0,
+            'rt_registered_while_same_data_node_lingers': 0,
         }
         self.faults = {'session_expired': 0, 'expire_mid_handler': 0,
                        'svc_killed': 0, 'kill_node': 0, 'placement_moved': 0,
@@ -375,6 +382,32 @@ class World:
                 out.append(path)
         return out
 
+    def _check_registered(self, cont, sid, who):
+        """Clause (6): a registration that completed successfully stands on
+        nodes that exist and are ephemeral nodes of the registering party's
+        OWN session (a session resumed after a kill is the same session).
+        Standing on a node another session owns = the node was adopted
+        instead of waited for."""
+        for kind, path in cont.paths:
+            node = self.zk.nodes.get(path)
+            if node is None:
+                self.fail('C17:registered-without-node:%s' % kind,
+                          '%s of %s (#%d) on %s completed but %s does not '
+                          'exist' % (who, cont.rsrc_id, cont.seq, cont.host,
+                                     path))
+                return False
+            if node.owner not in (0, sid):
+                orole, ohost = self.oracle.roles.get(node.owner, ('?', None))
+                self.fail('C17:registered-on-foreign-node:%s' % kind,
+                          '%s of %s (#%d) on %s (session %d) completed while '
+                          '%s is owned by session %d (%s of %s): the node '
+                          'goes away with that session' % (
+                              who, cont.rsrc_id, cont.seq, cont.host, sid,
+                              path, node.owner, orole, ohost))
+                return False
+        self.probes['registrations_checked_own_session'] += 1
+        return True
+
     def _owner_host(self, sid):
         return self.oracle.roles.get(sid, ('?', None))[1]
 
@@ -415,6 +448,8 @@ class World:
                 if rsid == sid:
                     cont.present = False
                     host.rts.remove((rsid, cont))
+            if sid in host.rt_zombies:
+                host.rt_zombies.remove(sid)
         if self.stack and self.stack[-1] == sid:
             raise SimProcessExit(-1)
         return True
@@ -452,6 +487,7 @@ class World:
                         self.probes['newer_container_coexists'] += 1
                         break
             self.log.ev('ack', host.name, cont.seq)
+            self._check_registered(cont, sid, 'create request')
             return res
         # not actioned or error
         cont.acked_sid = None
@@ -847,6 +883,11 @@ class World:
         client.add_listener(zkutils.exit_on_lost)
         host.rts.append((sid, cont))
         self.cur_host = host.name
+        for zsid in host.rt_zombies:
+            if any(self.zk.nodes.get(p) is not None and
+                   self.zk.nodes[p].owner == zsid for _k, p in cont.paths):
+                self.probes['rt_registered_while_same_data_node_lingers'] += 1
+                break
         lists = op.setdefault('sleeps', [])
         self.sleeping = {'lists': lists, 'k': 0, 'host': host.name}
         self.stack.append(sid)
@@ -858,6 +899,7 @@ class World:
             app_presence.register_endpoints()
             cont.acked_sid = sid
             self.probes['rt_registered'] += 1
+            self._check_registered(cont, sid, 'EndpointPresence.register_*')
         except tmexc.ContainerSetupError:
             outcome = 'gave-up'
             self.probes['rt_gave_up'] += 1
@@ -908,6 +950,33 @@ class World:
             return
         idx = int(op.get('idx', 0)) % len(host.rts)
         sid, _cont = host.rts[idx]
+        self.faults['rt_session_closed'] += 1
+        self._expire_session(sid)
+
+    def op_ep_crash(self, op):
+        """A docker-runtime container process dies without closing its
+        ZooKeeper session: its nodes linger until the session times out."""
+        host = self.hosts.get(op.get('host'))
+        if host is None or not host.rts:
+            return
+        idx = int(op.get('idx', 0)) % len(host.rts)
+        sid, cont = host.rts[idx]
+        if self.stack and sid in self.stack:
+            return                      # it is the one registering right now
+        host.rts.pop(idx)
+        cont.present = False
+        host.rt_zombies.append(sid)
+        sess = self.zk.sessions[sid]
+        sess.queue.clear()
+        sess.client._listeners[:] = []
+        self.probes['rt_crashed_session_lingers'] += 1
+
+    def op_ep_reap(self, op):
+        """The session of a crashed runtime process times out."""
+        host = self.hosts.get(op.get('host'))
+        if host is None or not host.rt_zombies:
+            return
+        sid = host.rt_zombies[int(op.get('idx', 0)) % len(host.rt_zombies)]
         self.faults['rt_session_closed'] += 1
         self._expire_session(sid)
 
@@ -1009,7 +1078,8 @@ OP_WEIGHTS = [
     ('create', 20), ('delete', 13), ('svc', 30), ('deliver', 30),
     ('expire', 4), ('kill', 2), ('restart', 9), ('place', 5), ('publish', 6),
     ('kill_node', 2), ('ep_register', 2), ('ep_exit', 1), ('handover', 3),
-    ('restart_same_host', 2),
+    ('restart_same_host', 2), ('ep_crash', 1), ('ep_reap', 1),
+    ('rt_restart_same_host', 2),
 ]
 
 
@@ -1169,12 +1239,48 @@ class Generator:
         return {'op': 'ep_exit', 'host': name,
                 'idx': self.rng.randrange(len(world.hosts[name].rts))}
 
+    def g_ep_crash(self, world):
+        have = [n for n, h in sorted(world.hosts.items()) if h.rts]
+        if not have:
+            return None
+        name = self.fault.choice(have)
+        return {'op': 'ep_crash', 'host': name,
+                'idx': self.fault.randrange(len(world.hosts[name].rts))}
+
+    def g_ep_reap(self, world):
+        have = [n for n, h in sorted(world.hosts.items()) if h.rt_zombies]
+        if not have:
+            return None
+        name = self.fault.choice(have)
+        return {'op': 'ep_reap', 'host': name,
+                'idx': self.fault.randrange(len(world.hosts[name].rt_zombies))}
+
+    def g_rt_restart_same_host(self, world):
+        """A docker-runtime container crashes (its session lingers) and the
+        instance is started again on the same host, usually with the very
+        same registration data, before that session times out."""
+        if not self.config['docker']:
+            return None
+        inst = self.rng.choice(self.config['instances'])
+        host = self.rng.choice(self.config['hosts'])
+        first = self._request(world, inst, kind='ep_register', host=host)
+        second = self._request(world, inst, kind='ep_register', host=host)
+        if self.rng.random() < 0.8:
+            second['eps'] = [list(e) for e in first['eps']]
+            second['identity'] = first['identity']
+        tail = [{'op': 'ep_crash', 'host': host, 'idx': -1}, second]
+        if self.rng.random() < 0.7:
+            tail.append({'op': 'ep_reap', 'host': host, 'idx': 0})
+        self.follow.extend(tail)
+        return first
+
     def sleep_ops(self, world, sleeper_host):
         """What the rest of the world does while a runtime sleeps 5 s."""
         out = []
         for _ in range(self.sched.choice([0, 1, 1, 2])):
             kind = self.sched.choice(['svc', 'deliver', 'delete', 'expire',
-                                      'svc', 'deliver', 'ep_exit', 'create'])
+                                      'svc', 'deliver', 'ep_exit', 'create',
+                                      'ep_reap', 'ep_reap'])
             if kind == 'expire' and self.sched.random() < 0.6:
                 continue
             op = getattr(self, 'g_' + kind)(world)
